@@ -180,7 +180,7 @@ func (c *Ctx) reachableStop(roots []*ssa.Function, withBuiltins bool, stopBelow 
 	}
 	out := map[*ssa.Function]bool{}
 	for f := range seen {
-		if fnInModule(f) && f.Blocks != nil {
+		if fnInModule(f) && f.Blocks != nil && !delegationWrapper[f] {
 			out[f] = true
 		}
 	}
@@ -340,7 +340,7 @@ func ruleINV1(c *Ctx) {
 					// the precise form: reset what may name the same location, on every level, and the container when its size changed
 					info, why := c.preciseAliasReset(callee, m)
 					if info == nil {
-						if strings.Contains(strings.ToLower(callee.Name()), "alias") {
+						if strings.Contains(strings.ToLower(publicName(callee)), "alias") {
 							preciseWhy = fnName(callee) + ": " + why
 						}
 						return false
@@ -514,7 +514,7 @@ func inv1Append(c *Ctx, m *memoAnchors) {
 			}
 			info, w := c.preciseAliasReset(callee, m)
 			if info == nil {
-				if strings.Contains(strings.ToLower(callee.Name()), "alias") {
+				if strings.Contains(strings.ToLower(publicName(callee)), "alias") {
 					why = fnName(callee) + ": " + w
 				}
 				return false
@@ -1815,12 +1815,23 @@ func ruleINV11(c *Ctx) {
 func calleeNameIs(ci ssa.CallInstruction, name string) bool {
 	f, m := calleeOf(ci)
 	if f != nil {
-		return f.Name() == name
+		return publicName(f) == name
 	}
 	if m != nil {
 		return m.Name() == name
 	}
 	return false
+}
+
+// publicName: the name a function is known under: its own, or that of the one-line wrapper that delegates to it.
+func publicName(f *ssa.Function) string {
+	if f == nil {
+		return ""
+	}
+	if w := delegateName[f]; w != nil {
+		return w.Name()
+	}
+	return f.Name()
 }
 
 func sameFieldLoad(a, b ssa.Value) bool {
